@@ -29,6 +29,8 @@ def run(R):
     R.assume("real arithmetic: equality is of real-valued functions where ystep != 0; floating-point rounding is not modelled")
     if R.want("C19.R6"):
         r6(R)
+    if R.want("C19.R7"):
+        r7(R)
     if R.want("C19.P1"):
         p1(R)
     if R.want("C19.R2"):
@@ -70,6 +72,55 @@ def r6(R):
                         "function of its arguments: equal arguments can give different values after an earlier call, and an array changed in place "
                         "after it was seen is still the same object" % (q, name, "reused when an argument is the same object as last time" if ident else "read without any validity test"))
     R.floor("C19.R6", 15)
+
+
+def r7(R):
+    """P1 reads 'y = f(x)' as a new value.  A conversion that updates an argument in place (x += c, x[...] = ..., np.add(x, c, out=x))
+    returns the right numbers the first time and changes the caller's array: the caller's positions are then no longer what they
+    were, so converting back (or converting the same map columns again) no longer gives the inverse."""
+    R.rule("C19.R7", "geometry.py: no conversion function modifies an argument in place (augmented assignment to a parameter, store "
+                     "through a parameter, out=<parameter>): for array arguments that changes the caller's data")
+    m = pyfacts.module(R, GEO)
+    n = 0
+    for q, fn in sorted(m.funcs.items()):
+        if "." in q or getattr(fn, "_parent", None) is not m.tree:
+            continue
+        params = set(a.arg for a in fn.args.args + fn.args.kwonlyargs + fn.args.posonlyargs)
+        rebound = set()
+        bad = []
+        for st in ast.walk(fn):
+            if isinstance(st, ast.Assign):
+                for t in st.targets:
+                    for x in ast.walk(t):
+                        if isinstance(x, ast.Name) and isinstance(x.ctx, ast.Store) and x.id in params and not isinstance(getattr(x, "_parent", None), ast.Subscript):
+                            rebound.add((x.id, st.lineno))
+        for st in ast.walk(fn):
+            if isinstance(st, ast.AugAssign):
+                t = st.target
+                base = t
+                while isinstance(base, (ast.Subscript, ast.Attribute)):
+                    base = base.value
+                if isinstance(base, ast.Name) and base.id in params and not any(nm == base.id and ln < st.lineno for nm, ln in rebound):
+                    bad.append((st, "%s: for an ndarray argument this updates the caller's array in place" % src(st)))
+            if isinstance(st, ast.Assign):
+                for t in st.targets:
+                    if isinstance(t, ast.Subscript):
+                        base = t
+                        while isinstance(base, (ast.Subscript, ast.Attribute)):
+                            base = base.value
+                        if isinstance(base, ast.Name) and base.id in params and not any(nm == base.id and ln < st.lineno for nm, ln in rebound) \
+                                and base.id not in ("out", "res", "result", "output"):
+                            bad.append((st, "%s: a store through the parameter %s" % (src(st)[:60], base.id)))
+            if isinstance(st, ast.Call):
+                for k in st.keywords:
+                    if k.arg == "out" and isinstance(k.value, ast.Name) and k.value.id in params and k.value.id not in ("out", "res", "result", "output"):
+                        bad.append((st, "%s: the result is written into the argument %s" % (src(st)[:60], k.value.id)))
+        n += 1
+        R.inst("C19.R7", "%s:%s leaves its arguments alone" % (GEO, q), ok=not bad)
+        for st, why in bad[:2]:
+            R.violation("C19.R7", GEO, st.lineno, q, src(st)[:80], why + " - the positions the caller holds are silently replaced by the converted "
+                        "ones, so the inverse conversion of the result no longer returns them and a second conversion of the same columns is shifted again")
+    R.floor("C19.R7", 15)
 
 
 PAIRS = [
